@@ -47,6 +47,7 @@ def run(repo, rep):
     w = where(f, f.node)
     tr = ThreadRule(repo, rep)
     tr.check_const(f)
+    tr.check_function(f)       # helpers that take an ellipsoid must receive the caller's
     Ac, Bc = V.series_tables(repo, rep, f, '')
     ev = Evaluator(repo)
     E = sym_ellipsoid(ev, repo, 'ellipsoid')
